@@ -1,8 +1,8 @@
 """C16 — opreturn prints exactly the non-empty UTF-8 payloads, in chain order."""
-from .. import gen_scripts as G, scriptcheck as S
+from .. import bb, chain as K, gen_chain as GC, gen_scripts as G, scriptcheck as S
 
 NAMESPACE = "Rbp.Props.C16"
-REQUIRED = []
+REQUIRED = ["single_push_fork", "single_push_btc", "lines_in_chain_order"]
 LEAN_FILES = ["Rbp/Model/Script.lean", "Rbp/Model/Lossy.lean"]
 RULE = ("OP_RETURN payload reported by the real evaluator (the string the opreturn callback prints) vs the Lean model, all 8 version bytes; payload families: ASCII, multi-byte UTF-8, "
         "invalid UTF-8 (overlongs, surrogates, truncated tails), empty; every push form that can carry them (direct / PUSHDATA1/2/4; 76..80 bytes need PUSHDATA1), lengths up to 65536; "
@@ -11,8 +11,27 @@ ASSUMPTIONS = ["lossy UTF-8 decoding of Rust's String::from_utf8_lossy is modell
 
 
 def project(t):
-    # (is OpReturn, payload)
-    return (t[0] == "OpReturn", t[2] if len(t) > 2 else "-")
+    # what the opreturn callback prints for this output: a payload, or nothing
+    return t[2] if (t[0] == "OpReturn" and len(t) > 2 and t[2] != "-") else None
+
+
+def single_push(s):
+    """the property's template: OP_RETURN followed by exactly one complete data push (direct / PUSHDATA1/2/4) and nothing else"""
+    if len(s) < 2 or s[0] != 0x6a:
+        return False
+    op, rest = s[1], s[2:]
+    if 1 <= op <= 75:
+        return len(rest) == op
+    for code, w in ((0x4c, 1), (0x4d, 2), (0x4e, 4)):
+        if op == code:
+            return len(rest) >= w and len(rest) - w == int.from_bytes(rest[:w], "little")
+    return False
+
+
+def in_domain(s, impl_tokens, model_tokens):
+    # the property speaks about the single-push template and about scripts whose type is not OP_RETURN;
+    # OP_RETURN scripts of any other shape (several pushes, trailing opcodes, a truncated push) are not covered
+    return single_push(s) or model_tokens[0] != "OpReturn"
 
 
 def correspondence(ctx):
@@ -30,11 +49,40 @@ def correspondence(ctx):
             k += 1
     def versions_of(fam, i):
         return [G.BTC[i % 2], G.FORK[i % 6]]
-    S.run(ctx, cases, versions_of, project)
+    S.run(ctx, cases, versions_of, project, in_domain=in_domain)
+    blackbox(ctx, r)
+
+
+def blackbox(ctx, r):
+    """the real `opreturn` callback on chains mixing every script type: stdout (log lines removed) vs the model, byte for byte"""
+    scns = []
+    for i in range(ctx.n(24, 240)):
+        coin = K.COINS[i % 8]
+        def scripts(rr, c):
+            k = rr.random()
+            if k < 0.5:
+                d = G.payload(rr)
+                if rr.random() < 0.3:
+                    d = d.replace(b"\n", b" ")
+                return b"\x6a" + rr.choice(G.push_forms(d))
+            return GC.spk(rr, c)
+        blocks = GC.gen_chain(r, coin, r.randrange(2, 8), max_txs=3, max_io=3, scripts=scripts, auxpow_mix=False)
+        s = K.Scenario(coin=coin, callback="opreturn")
+        GC.simple_layout(s, blocks, per_file=r.choice([None, 2]))
+        if i % 3 == 0:
+            s.start = r.randrange(0, len(blocks))
+            s.stop = r.choice([None, s.start + 1 + r.randrange(len(blocks))])
+        s.meta = {"i": i}
+        scns.append(s)
+    bb.check(ctx, "opreturn-chains", scns, [bb.cmp_exit, bb.cmp_opreturn], nontrivial=lambda s, m: len(m["out"]) > 0)
 
 
 def replay(ctx, rep, corpus=None):
-    S.replay_one(ctx, rep, project)
+    d = rep.get("failing_input", rep)
+    if d.get("scenario"):
+        bb.replay_scenario(ctx, rep, [bb.cmp_exit, bb.cmp_opreturn])
+    else:
+        S.replay_one(ctx, rep, project)
 
 
 def shrink(ctx, d):
